@@ -43,6 +43,7 @@ func checkC11(c *Ctx) {
 	c.Rule("C11.R3", "bearer comparison (three sibling implementations): true only behind subtle.ConstantTimeCompare(presented, allowed)==1 over the whole token or the empty-allowlist test; missing/wrong-scheme/empty values give false")
 	c.Rule("C11.R4", "compile-time allowlist: the 'pull_api requires auth token allowlist' error is appended exactly when pull routes exist, the global list is empty and some pull route has no own tokens")
 	c.Rule("C11.R5", "token bytes reach the authorizers untransformed from secrets.LoadRef (the only step that rejects empty values), so a compiled non-empty allowlist stays non-empty at run time")
+	c.Rule("C11.R6", "one key: per API, the key with which the wired authorizer selects the per-route token override and the key with which the wired resolver finds the route are the same symbolic term over the request (same normalisation chain), or the resolver looks up exactly the endpoint that was presented to the authorizer")
 
 	// ---- R1: HTTP servers ----
 	for _, pkg := range []string{"pullapi", "admin"} {
@@ -296,6 +297,7 @@ func checkC11(c *Ctx) {
 
 	checkPullAllowlistCompile(c, "C11.R4")
 	checkTokenProvenance(c, "C11.R5")
+	checkOneKey(c, "C11.R6")
 }
 
 func isNamedLocal(v ssa.Value) bool {
